@@ -411,6 +411,7 @@ def expectedSites : List (String × String × String × String) := [
   ("sqlglot/generator.py", "Generator.unsupported", "unsupported_messages", "self:call:append"),
   ("sqlglot/errors.py", "ParseError.__init__", "errors", "self:write:Or(errors,[])"),
   ("sqlglot/errors.py", "merge_errors", "errors", "error:read:comprehension"),
+  ("sqlglot/transforms.py", "preprocess._to_sql", "UnsupportedError", "except"),
   ("sqlglot/parsers/athena.py", "AthenaParser.__init__", "error_level", "kwarg"),
   ("sqlglot/parsers/athena.py", "AthenaParser.__init__", "error_level", "kwarg"),
   ("sqlglot/parsers/athena.py", "AthenaParser.__init__", "error_level", "kwarg"),
@@ -429,6 +430,45 @@ def expectedSkeletons : List (String × List String) := [
   ("Generator.unsupported", ["0:if:Cmp(self.unsupported_level,Eq,ErrorLevel.IMMEDIATE)", "1:raise:Call(UnsupportedError)(message)", "0:call:<expr>.append(message)"]),
   ("Generator.generate", ["0:if", "0:set:self.unsupported_messages=[]", "0:if", "0:if:Cmp(self.unsupported_level,Eq,ErrorLevel.IGNORE)", "1:return:sql", "0:if:Cmp(self.unsupported_level,Eq,ErrorLevel.WARN)", "1:for:self.unsupported_messages", "2:call:logger.warning(msg)", "0:else", "1:if:And(Cmp(self.unsupported_level,Eq,ErrorLevel.RAISE),self.unsupported_messages)", "2:raise:Call(UnsupportedError)(Call(concat_messages)(self.unsupported_messages,self.max_unsupported))", "0:return:sql"])
 ]
+
+/-- constructs that could make an error disappear between its raise site and the caller (audited):
+    no `return` / `break` / `continue` sits inside a `finally:` block anywhere in parser / generator / transforms / dialect code;
+    the handlers are `_try_parse` (modelled), `parse_into` (entry point), `_parse_hint_body` (sub-parser only),
+    `transforms.preprocess._to_sql` (`except UnsupportedError: self.unsupported(str(e))` — routes a transform's direct raise
+    through the level switch: `preprocessStep`), `to_json_path` (confined sub-parser), duckdb `_regr_val_sql` (around a type
+    annotation attempt only) and the executor's `_rename` (re-raises). -/
+def expectedExceptionFlowSites : List (String × String × String × String) := [
+  ("sqlglot/parser.py", "Parser._try_parse", "handler:ParseError", "swallows:"),
+  ("sqlglot/parser.py", "Parser.parse_into", "handler:ParseError", "swallows:append"),
+  ("sqlglot/parser.py", "Parser._parse_hint_body", "handler:ParseError", "swallows:"),
+  ("sqlglot/transforms.py", "preprocess._to_sql", "handler:UnsupportedError", "swallows:str,unsupported"),
+  ("sqlglot/generators/duckdb.py", "_regr_val_sql", "handler:Exception", "swallows:"),
+  ("sqlglot/generators/python.py", "_rename", "handler:Exception", "re-raises:Exception,repr"),
+  ("sqlglot/dialects/dialect.py", "Dialect.to_json_path", "handler:ParseError", "swallows:lstrip,startswith,str,warning")
+]
+
+/-- `transforms.preprocess`: the transform chain runs inside `try: … except UnsupportedError as e: self.unsupported(str(e))`
+    [`finally: return expression`], then generation continues with `rest`.  `raised` = the message of the transform that gave
+    up (none = the chain completed); `finallyReturn` = whether a `return` sits in a `finally:` block (Python then DISCARDS an
+    exception that is in flight — here the UnsupportedError `self.unsupported` raises under IMMEDIATE). -/
+def preprocessStep (finallyReturn : Bool) (raised : Option Msg) (rest : GComb) (s : GSt) : GRes :=
+  match raised with
+  | none => gexec rest s
+  | some m =>
+    match unsupported m s with
+    | .ok _ s1 => gexec rest s1
+    | .exc r k s1 => if finallyReturn then gexec rest s1 else .exc r k s1
+
+/-- Generator.generate around a statement whose SELECT goes through `preprocess` -/
+def generatePre (l : Level) (maxUnsupported : Nat) (finallyReturn : Bool) (raised : Option Msg) (rest : GComb) : GOut :=
+  match preprocessStep finallyReturn raised rest { level := l } with
+  | .exc r k _ => .raised r k
+  | .ok sql s =>
+    if l = .ignore then .returned sql []
+    else if l = .warn then .returned sql s.messages
+    else if l = .raise ∧ s.messages ≠ [] then
+      .raised (concatMessages s.messages maxUnsupported).1 (concatMessages s.messages maxUnsupported).2
+    else .returned sql []
 
 /-! ### direct raises and nested parsers (audited allow-lists, compared with Generated/C14.lean by `decide`) -/
 
